@@ -360,6 +360,30 @@ def gen_ni_history(seed):
             ops.append(dict(tmpl, mol=it % 2, dms=[rng.below(2)]))
             ops.append({"op": "drop_all"})
         return {"kind": "ni", "models": models, "mols": mols, "grids": grids[:1], "ops": ops, "perturb": rng.choice(PERTURBS)}
+    if not big and rng.chance(0.1):
+        # a geometry scan: one calculator, one grids object that is re-targeted to the next
+        # geometry and rebuilt in place before every call
+        # (a rigid shift of the whole molecule is a symmetry of every result and shows nothing:
+        # the steps go to the same atoms listed in another order and to other molecules)
+        base = {"name": rng.choice(["LiH", "H2O", "OH", "HeH+"]), "basis": rng.choice(["sto-3g", "6-31g"]), "dseed": rng.below(10**6)}
+        others = [n_ for n_ in NI_MOLS if n_ != base["name"]]
+        mols = [dict(base), dict(base, name=REORDERED[base["name"]], dseed=base["dseed"] + 1), dict(base, name=rng.choice(others), dseed=base["dseed"] + 2)]
+        if rng.chance(0.6):
+            nld = [m_ for m_ in NI_MODELS if m_[0].startswith("nldf")]
+            s_, ev_, mode_, ver_ = rng.choice(nld)
+            models = [dict(models[0], settings=s_, ev=ev_, mode=mode_, version=ver_)]
+        else:
+            models = models[:1]
+        models[0].pop("calc1", None)
+        tmpl = {"op": "call", "model": 0, "mol": 0, "grid": 0, "uks": bool(rng.chance(0.4)), "dms": [0], "max_memory": 2000, "calc": 0, "container": "single", "alias": None}
+        cur = 0
+        ops.append(dict(tmpl))
+        for it in range(rng.randint(2, 4)):
+            nxt_ = (cur + 1 + rng.below(2)) % 3
+            ops.append({"op": "regrid_inplace", "from_mol": cur, "to_mol": nxt_, "grid": 0})
+            ops.append(dict(tmpl, mol=nxt_, dms=[rng.below(2)]))
+            cur = nxt_
+        return {"kind": "ni", "models": models, "mols": mols, "grids": grids[:1], "ops": ops, "perturb": rng.choice(PERTURBS)}
     if not big and rng.chance(0.08):
         # a model file that is overwritten by a retrained model (same recipe and shapes, other
         # numbers; the file keeps its name, size and time stamp) between two calculators
